@@ -388,6 +388,33 @@ pub fn run(ctx: &Ctx, st: &mut Stats) {
         check(ctx, st, &c);
         st.nontrivial_key(hash64(&format!("{:?}", (c.workers, c.days, c.threshold, c.pseed))));
     }
+    // long ranges at a high latitude under the default (nearest-good-day) policy: per-day work is heavy and
+    // value-dependent, partitions are thousands of days long — wrong VALUES (not only wrong key sets) in the
+    // parallel path show up here
+    let long_cfgs: Vec<(usize, i64)> = [16usize, 32, 64, 13, 8, 5].iter().flat_map(|w| [(*w, 6000i64), (*w, 4200)]).collect();
+    let nlong = ctx.pick(4, 48) as usize;
+    for i in 0..nlong {
+        if !ctx.mine(i as u64 + 7) || st.extra.contains_key("aborted_after_deadlock") {
+            continue;
+        }
+        let (w, d) = long_cfgs[i % long_cfgs.len()];
+        let lon = gen::any_lon(&mut r);
+        let c = Case {
+            site: Site::new(if i % 2 == 0 { 60.0 } else { -58.0 }, lon, 0.0, gen::gmt_near(&mut r, lon, 1.0)),
+            method: *r.pick(&ANGLE_METHODS),
+            default_policy: true,
+            start: d2s(from_ce(r.int(day_lo() as i64, day_hi() as i64 - 6100) as i32)),
+            days: d,
+            workers: w,
+            threshold: 0,
+            pseed: ctx.seed * 11_000_027 + i as u64 * 37 + 1,
+            max_sleep_us: 0,
+            repeats: 1,
+        };
+        check(ctx, st, &c);
+        st.count("runs.long_range_high_latitude_default_policy");
+        st.nontrivial_key(hash64(&format!("{:?}", (c.workers, c.days, c.pseed))));
+    }
     // long injected delays (tens of ms) on small configurations: timing-based termination conditions
     // (recv_timeout, polling collectors, "wait a bit then stop") only show when a worker is late
     for k in 0..ctx.pick(4, 40) {
